@@ -271,6 +271,12 @@ def bgEnv (b : BW) : BW :=
         { b with wl := some { wl with status := { replicas := R, ready := R, updated := R,
                                                    available := if wl.minReadySeconds ≥ maxReady then 0 else R, updatedReady := R } } }
 
+/-- `x`, but at most `spec.replicas` -/
+def capAt (r : Option Int) (x : Int) : Int :=
+  match r with
+  | some R => if x > R then R else x
+  | none => x
+
 /-- a new revision admitted by the workload webhook (`handleCloneSet`): held back at partition 100 %, marked in progress.
     Pods of a revision that is no longer the update revision are not "updated" any more; when the new update revision is
     the current one (a rollback) the pods of the current revision are. -/
@@ -282,9 +288,7 @@ def bgRelease (rev : String) (b : BW) : BW :=
   | some wl =>
     let st := wl.status
     let old := st.ready - st.updatedReady
-    let cur := match wl.replicas with
-      | some R => if old > R then R else old
-      | none => old
+    let cur := capAt wl.replicas old
     let st' : CtlBlueGreen.Status :=
       if rev = b.currentRevision then { st with updated := cur, updatedReady := cur }
       else { st with updated := 0, updatedReady := 0 }
